@@ -302,6 +302,9 @@ def _enumerate(ex, v, start=0):
 
 
 def _chain(ex, *its):
+    for i in its:
+        if hasattr(i, "sym_chain"):
+            return i.sym_chain(ex, its)
     if any(isinstance(i, SymSeq) for i in its):
         acc = None
         for i in its:
@@ -441,6 +444,8 @@ class SetVal(list):
 def _list(ex, it=()):
     if isinstance(it, SymSeq):
         return it
+    if hasattr(it, "sym_list"):
+        return it.sym_list(ex)
     return list(ex.iterate(it))
 
 
